@@ -44,8 +44,28 @@ def safe_word(w):
     return w
 
 
+# realistic identifiers: many of them start or end with a word that is (or could become) a keyword, an option word or a lexer
+# rule of its own (enabled, disabled_at, validated, collateral, ordered, commented, defaulted, typed, keyed ...)
+REALISTIC_NAMES = """enabled disabled_at is_enabled enable_flag disable_reason validated validate_after novalidate_x created_at updated_at
+deleted_at order_id ordered_by orders_total user_id username is_active description comment_text commented default_value defaults
+status type_id typed key_name keyed index_no indexed primary_flag unique_code uniqueness check_sum checked references_count referenced
+constraint_name constrained collateral collated autoincrement_id auto_increment_step increment_by incremental start_date started
+cache_size cached maxvalue_hint minvalue_hint cycle_no sequence_no table_ref tablespace_id schema_version database_id domain_name
+partition_key partitioned_on cluster_id clustered_at location_id located stored_at storage_class format_code formatted row_count rows_total
+serde_name tagged tag_list masking_rule policy_id generated_at always_on identity_no encrypted encode_as salted using_index with_grant
+without_time like_count likes into_bucket terminated_by escaped_text items_count keys_count map_id array_len collection_id engine_type
+charset_name comment_count replace_flag exists_flag if_null not_null_flag nullable null_count in_stock on_hold on_time update_ts updated
+delete_flag deleted drop_date dropped add_date added alter_ts altered rename_to renamed modify_ts modified column_no columns_total
+foreign_id foreigner visible_flag invisible_flag go_live use_count used insert_ts inserted grant_id granted setting set_id settled
+""".split()
+
+
 @st.composite
 def plain_ident(draw, min_len=1, max_len=9):
+    if draw(st.integers(0, 4)) == 0:
+        w = draw(st.sampled_from(REALISTIC_NAMES))
+        if len(w) >= min_len:
+            return safe_word(w)
     first = draw(st.sampled_from(_LETTERS + _LETTERS.upper() + "_"))
     rest = draw(st.text(alphabet=_ALNUM, min_size=max(0, min_len - 1), max_size=max_len - 1))
     w = first + rest
